@@ -64,6 +64,9 @@ fn worker(args: &[String]) {
       let corpus = std::sync::Arc::new(corpus::load());
       supervisor::worker_loop(|k| w2::worker_run(seed, k, &corpus));
     }
+    "W5" => {
+      supervisor::worker_loop(|k| w5::worker_run(seed, k));
+    }
     "W3" => {
       let thorough = flag(args, "--thorough");
       let corpus = std::sync::Arc::new(corpus::load());
@@ -115,6 +118,29 @@ fn check_cmd(args: &[String]) -> i32 {
           "heap addresses are not controlled, only kept out of observations (structural snapshots)".into(),
         ],
         expected_reach: vec![],
+        exhaustive: false,
+        extra: json!({}),
+      }
+    }
+    "C17" => {
+      CheckSpec {
+        property: property.clone(), world: "W5".into(), tier: tier.clone(), seed, level: "exploration".into(),
+        rule: "W5 state-machine world: one real Interpreter per run (fresh thread, PRNG-chosen hash seed, trace on) given a generated machine — 1-4 states, 1-3 u64 payload fields, per state a direct transition or 1-4 guarded branches (comparisons of fields with constants or other fields, several of which may hold at once, usually a final wildcard), payload updates (field, constant, field +/- constant, field +/- field), self-loops and cycles, inputs from {0,1,2,3,4,5,7,10} — and 2-5 invocations in the same session, each with a PRNG-chosen transition budget (Interpreter.max_steps in {1,2,3,5,8,13,30,100,1000}). Ill-formed variants: a transition to an undeclared state, a transition to a declared state that has no arm, an argument of the wrong kind, a wrong argument count. Oracle: a reference simulation of the transition system (checked u64 arithmetic, cycle detection): result value, the sequence of (state, payload) parsed from the recorded [trace][fsm][step] events, the limit error for machines that never terminate (bounded liveness in steps), rejection of every ill-formed variant, and the next invocation after a failed or limited one is checked like any other. A run is non-trivial if at least one well-formed invocation terminated within its budget or was stopped by the limit; distinct = digest over machine text, invocations, budgets and outcomes.".into(),
+        worker_args: vec!["worker".into(), "--world".into(), "W5".into(), "--seed".into(), seed.to_string()],
+        runs: if thorough { 600_000 } else { 40_000 },
+        budget: Duration::from_secs(if thorough { 480 } else { 50 }),
+        chunk: 16,
+        evidence: base.join("evidence/C17.json"),
+        replays: base.join("replays/C17"),
+        known: base.join("known_findings.jsonl"),
+        components_real: vec!["mech-syntax parser (state machine grammar)".into(), "mech-interpreter state_machines.rs (execute_fsm_pipe, validation passes, apply_transitions), patterns.rs, tracing.rs".into(), "stdlib comparison/arithmetic kernels for u64".into()],
+        components_stub: vec!["none of Mech is stubbed; simulated: the transition budget (Interpreter.max_steps), hash seed, the schedule of invocations in one session".into()],
+        assumptions: vec![
+          "a machine that terminates only beyond its budget may return the limit error or the correct value".into(),
+          "a state in which no guard holds is not pinned down by C17 and is not judged (generated machines usually end their branches with a wildcard)".into(),
+          "array-pattern states of the property's quantifier are not generated".into(),
+        ],
+        expected_reach: vec!["reach:terminating".into(), "reach:non-terminating".into(), "fault:transition-limit-fired".into(), "fault:transition-to-undeclared-state".into(), "fault:declared-state-without-arm".into(), "fault:wrong-argument-kind".into(), "fault:wrong-argument-count".into(), "fault:overflow-inside-transition".into(), "reach:invocation-after-a-failed-one-follows".into()],
         exhaustive: false,
         extra: json!({}),
       }
@@ -209,6 +235,13 @@ fn replay_cmd(args: &[String]) -> i32 {
         None => { println!("not reproduced"); 0 }
       }
     }
+    Some("W5") => {
+      match w5::replay(&j) {
+        Some(sig) if want.is_empty() || sig == want => { println!("REPRODUCED {}", sig); 1 }
+        Some(sig) => { println!("different violation: {} (wanted {})", sig, want); 1 }
+        None => { println!("not reproduced"); 0 }
+      }
+    }
     Some("W2") => {
       match w2::replay(&j) {
         Some(sig) if want.is_empty() || sig == want => { println!("REPRODUCED {}", sig); 1 }
@@ -250,7 +283,7 @@ fn baseline_cmd(args: &[String]) -> i32 {
   let mut ok = std::collections::BTreeSet::new();
   let mut err = std::collections::BTreeSet::new();
   for profile in ["C04", "C05"] {
-    for seed in [1u64, 2, 3] {
+    for seed in [11u64, 12] {
       let wargs: Vec<String> = vec!["worker".into(), "--world".into(), "W1".into(), "--profile".into(), profile.into(), "--seed".into(), seed.to_string(), "--discover".into()];
       let agg = supervisor::run_batch(wargs, 0, runs, supervisor::default_jobs(), Duration::from_secs(600), 64).expect("batch");
       if let Some(s) = agg.sets.get("combos_ok") { ok.extend(s.iter().cloned()); }
@@ -276,6 +309,7 @@ fn digests_cmd(args: &[String]) -> i32 {
     "C04" | "C05" => vec!["worker".into(), "--world".into(), "W1".into(), "--profile".into(), property.clone(), "--seed".into(), seed.to_string()],
     "C07" => vec!["worker".into(), "--world".into(), "W3".into(), "--seed".into(), seed.to_string()],
     "C19" => vec!["worker".into(), "--world".into(), "W2".into(), "--seed".into(), seed.to_string()],
+    "C17" => vec!["worker".into(), "--world".into(), "W5".into(), "--seed".into(), seed.to_string()],
     p => { eprintln!("unknown property {}", p); return 2; }
   };
   let agg = match supervisor::run_batch(wargs, 0, runs, jobs, Duration::from_secs(3600), 8) { Ok(a) => a, Err(e) => { eprintln!("{}", e); return 2; } };
